@@ -498,8 +498,12 @@ class Model:
                 return self.generic_visit(n)
         e2 = Sub().visit(_copy4.deepcopy(e))
         at = top[last] if last >= 0 else (top[0] if top else init.node)
-        new_st = ast.copy_location(ast.Assign(targets=[ast.Attribute(value=ast.Name(id=s0, ctx=ast.Load()), attr=f.name, ctx=ast.Store())], value=e2,
-                                              lineno=getattr(at, "lineno", 0)), at)
+        tgt = ast.Attribute(value=ast.Name(id=s0, ctx=ast.Load()), attr=f.name, ctx=ast.Store())
+        if f.node.returns is not None:
+            # the getter's return annotation is the attribute's annotation (the receiver typing reads it)
+            new_st = ast.copy_location(ast.AnnAssign(target=tgt, annotation=_copy4.deepcopy(f.node.returns), value=e2, simple=0), at)
+        else:
+            new_st = ast.copy_location(ast.Assign(targets=[tgt], value=e2, lineno=getattr(at, "lineno", 0)), at)
         ast.fix_missing_locations(new_st)
         node = _copy4.copy(init.node)
         pos = last + 1
